@@ -314,8 +314,13 @@ func (sc *c05Scenario) layout(perm func(int) []int) *Layout {
 	if sc.KeyPerm {
 		p = perm
 	}
-	for f, d := range docs {
-		L.Files[f] = Emit(d, p)
+	fnames := make([]string, 0, len(docs))
+	for f := range docs {
+		fnames = append(fnames, f)
+	}
+	sort.Strings(fnames)
+	for _, f := range fnames {
+		L.Files[f] = Emit(docs[f], p)
 	}
 	return L
 }
@@ -649,6 +654,7 @@ func c05Run(c *Ctx, r *zsimrt.Run) {
 
 func c05Exec(c *Ctx, sc *c05Scenario, minimise bool) {
 	out := runC05(sc)
+	c.Trace(fmt.Sprintf("%s:%s:%d:%d:%d", out.Digest, out.Outcome, out.Loads, out.PinHits, len(out.Problems)))
 	c.Count("scenarios", 1)
 	c.Count("loads", out.Loads)
 	c.Count("kind-"+sc.Kind, 1)
